@@ -44,7 +44,7 @@ package dotenv
 //@     decreases[C01,C18] len(src) - i
 
 //@ func (*parser).parse
-//@   except nilrecv#4, precondition#2 : undischarged on the reference tree (engine limit or missing callee contract), not claimed
+//@   except nilrecv@69b5c5#1, precondition#2 : undischarged on the reference tree (engine limit or missing callee contract), not claimed
 //@   nopanic[C01,C18]
 //@   requires out != nil
 
